@@ -7,6 +7,7 @@ import Gk.DrvPool
 import Gk.DrvSched
 import Gk.DrvSchedCron
 import Gk.DrvLin
+import Gk.DrvPure
 open Gk
 
 /-- `gkdriver <family>`: reads trace lines on stdin, prints `L<n> DIFF …` / `L<n> MON …` lines and a
@@ -101,6 +102,21 @@ partial def loopPool (h : IO.FS.Stream) (s : DrvPool.S) (n hist nt bad : Nat) : 
     for o in outs do IO.println s!"L{n + 1} {o}"
     loopPool h s' (n + 1) hist nt (bad + outs.length)
 
+partial def loopPure (h : IO.FS.Stream) (s : DrvPure.S) (n hist nt bad : Nat) : IO Unit := do
+  let line ← h.getLine
+  if line.isEmpty then
+    IO.println s!"SUMMARY family=pure lines={n} histories={hist} nontrivial={nt} ops={s.ops} flagged={bad}"
+    return
+  let toks := Proto.tokens line
+  match toks with
+  | [] => loopPure h s (n + 1) hist nt bad
+  | ["end"] => loopPure h s (n + 1) (hist + 1) (nt + (if s.nontrivial then 1 else 0)) bad
+  | _ =>
+    let (req, resp) := Proto.splitArrow toks
+    let (s', outs) := DrvPure.stepLine s req resp
+    for o in outs do IO.println s!"L{n + 1} {o}"
+    loopPure h s' (n + 1) hist nt (bad + outs.length)
+
 partial def loopSched (h : IO.FS.Stream) (s : DrvSchedCron.S) (n hist nt bad : Nat) : IO Unit := do
   let line ← h.getLine
   if line.isEmpty then
@@ -141,5 +157,6 @@ def main (args : List String) : IO UInt32 := do
   | ["disp"] => loopDisp stdin {} 0 0 0; return 0
   | ["pool"] => loopPool stdin {} 0 0 0 0; return 0
   | ["sched"] => loopSched stdin {} 0 0 0 0; return 0
+  | ["pure"] => loopPure stdin {} 0 0 0 0; return 0
   | ["lin"] => loopLin stdin {} 0 0 0 0; return 0
   | _ => IO.eprintln "usage: gkdriver repo"; return 2
